@@ -106,6 +106,7 @@ class SimCluster(object):
         self.logs = {}  # (topic, partition) -> PartitionLog
         self.leader = {}  # (topic, partition) -> broker id | -1
         self.topic_error = {}  # topic -> metadata-level error code override
+        self.meta_order = "asc"  # order of a topic's partitions in Metadata answers: asc | reverse | rotate
         self.coordinator = {}  # group -> broker id
         self.offsets = {}  # (group, topic, partition) -> (offset, metadata)
         self.groups = {}  # group -> GroupState (managed groups only)
@@ -348,6 +349,10 @@ class SimCluster(object):
                 out.append({"error": 3, "topic": name, "partitions": []})
                 continue
             plist = []
+            if self.meta_order == "reverse":  # a broker lists partitions in no particular order
+                parts = list(reversed(parts))
+            elif self.meta_order == "rotate":
+                parts = list(parts[1:]) + list(parts[:1])
             for pn in parts:
                 ld = self.leader[(name, pn)]
                 if ld != -1 and (ld not in self.brokers or not self.brokers[ld]["up"]):
@@ -355,6 +360,9 @@ class SimCluster(object):
                 plist.append({"error": 5 if ld == -1 else 0, "partition": pn, "leader": ld,
                               "replicas": [] if ld == -1 else [ld], "isr": [] if ld == -1 else [ld]})
             out.append({"error": 0, "topic": name, "partitions": plist})
+        if self.meta_order != "asc":
+            out.reverse()
+            brokers.reverse()
         return {"brokers": brokers, "topics": out}
 
     def _api_3(self, r, v, body, err, only):
